@@ -5,6 +5,7 @@ import itertools, random
 DECLS = """data List[A] { Nil, Cons(x: A, xs: List[A]) }
 data Pair[A, B] { Tup(x: A, y: B) }
 data Unit { U }
+data Either[A, B] { Left(x: A), Right(y: B) }
 data Enum3 { E1, E2, E3 }
 data Wide { W0, W4(a: i64, b: i64, c: i64, d: i64), W7(a: i64, b: i64, c: i64, d: i64, e: i64, f: i64, g: i64) }
 codata Fun[A, B] { apply(x: A): B }
@@ -240,12 +241,47 @@ def positions_and_codata():
     return out
 
 
+def clause_orders_and_nested_types():
+    """(i) case / cocase clauses written in an order different from the declaration order, selected by run-time values;
+    (ii) parameterised types as non-last type arguments (type names with nested brackets end up in labels)"""
+    import itertools
+    out = []
+    extra = ("def mkE(p: i64, q: i64): Enum3 { if p == q { E1 } else { if p < q { E2 } else { E3 } } }\n"
+             "def mkL(p: i64, q: i64): List[i64] { if p == q { Nil } else { Cons(p, Nil) } }\n"
+             "def mkW(p: i64, q: i64): Wide { if p == q { W0 } else { if p < q { W4(p, q, 3, 4) } else { W7(p, q, 3, 4, 5, 6, 7) } } }\n"
+             "def mkX(p: i64, q: i64): Either[List[i64], i64] { if p < q { Left(Cons(p, Nil)) } else { Right(q) } }\n"
+             "def mkY(p: i64, q: i64): Pair[List[i64], i64] { Tup(Cons(p, Cons(q, Nil)), p - q) }\n"
+             "def mkZ(p: i64, q: i64): Either[Pair[i64, i64], List[i64]] { if p < q { Left(Tup(p, q)) } else { Right(Cons(q, Nil)) } }\n")
+    e_clauses = {'E1': "E1 => a + 1", 'E2': "E2 => b + 2", 'E3': "E3 => (a - b) + 3"}
+    for perm in itertools.permutations(['E1', 'E2', 'E3']):
+        body = "mkE(a, b).case { " + ", ".join(e_clauses[c] for c in perm) + " }"
+        out.append({'name': f"clause-order/enum/{''.join(perm)}", 'src': prog(body, extra_defs=extra)})
+    out.append({'name': "clause-order/list/ConsNil", 'src': prog("mkL(a, b).case[i64] { Cons(h, t) => h + 10, Nil => b }", extra_defs=extra)})
+    w_clauses = {'W0': "W0 => 0", 'W4': "W4(p, q, r, s) => (p - q) + s", 'W7': "W7(p, q, r, s, t, u, w) => (p - q) + w"}
+    for perm in (['W7', 'W0', 'W4'], ['W4', 'W7', 'W0'], ['W0', 'W7', 'W4']):
+        out.append({'name': f"clause-order/wide/{''.join(perm)}", 'src': prog("mkW(a, b).case { " + ", ".join(w_clauses[c] for c in perm) + " }", extra_defs=extra)})
+    o_clauses = {'m1': "m1(x) => x + a", 'm2': "m2 => b", 'm3': "m3(x, y) => x - y"}
+    for perm in itertools.permutations(['m1', 'm2', 'm3']):
+        body = "let o: Obj3 = new { " + ", ".join(o_clauses[c] for c in perm) + " }; ((o.m1(1)) + (o.m2)) + (o.m3(a, b))"
+        out.append({'name': f"clause-order/obj/{''.join(perm)}", 'src': prog(body, extra_defs=extra)})
+    out.append({'name': "clause-order/stream/tailhead", 'src': prog("(new { tail => nats(b), head => a }.tail[i64].head[i64]) + (new { tail => nats(b), head => a }.head[i64])", extra_defs=extra)})
+    out.append({'name': "nested-type/either-list-first", 'src': prog("mkX(a, b).case[List[i64], i64] { Left(l) => sum(l), Right(r) => r + 1 }", extra_defs=extra)})
+    out.append({'name': "nested-type/pair-list-first", 'src': prog("mkY(a, b).case[List[i64], i64] { Tup(l, r) => sum(l) + r }", extra_defs=extra)})
+    extra2 = extra + ("def useX(e: Either[List[i64], i64], d: i64): i64 { e.case[List[i64], i64] { Left(l) => sum(l) + d, Right(r) => r - d } }\n"
+                      "def useY(e: Pair[List[i64], i64]): i64 { e.case[List[i64], i64] { Tup(l, r) => sum(l) - r } }\n"
+                      "def useZ(e: Either[Pair[i64, i64], List[i64]]): i64 { e.case[Pair[i64, i64], List[i64]] { Left(p) => p.case[i64, i64] { Tup(x, y) => x - y }, Right(l) => sum(l) } }\n")
+    out.append({'name': "nested-type/switch-on-parameter", 'src': prog("(useX(mkX(a, b), 1) + useY(mkY(a, b))) - useZ(mkZ(a, b))", extra_defs=extra2)})
+    out.append({'name': "nested-type/switch-on-let", 'src': prog("let e: Either[List[i64], i64] = mkX(a, b); let f: Either[List[i64], i64] = mkX(b, a); (e.case[List[i64], i64] { Left(l) => sum(l), Right(r) => r + 1 }) - (f.case[List[i64], i64] { Left(l) => 7, Right(r) => r })", extra_defs=extra2)})
+    out.append({'name': "nested-type/either-pair-list", 'src': prog("mkZ(a, b).case[Pair[i64, i64], List[i64]] { Right(l) => sum(l), Left(p) => p.case[i64, i64] { Tup(x, y) => x - y } }", extra_defs=extra)})
+    return out
+
+
 def all_programs(tier='quick'):
     ps = name_reuse(("v", "x0") if tier == 'quick' else ("v", "x0", "a0", "x")) + generated_names() + effects_in_arguments() + cut_shapes() + live_variables()
-    return ps + fresh_clash() + lift_order() + positions_and_codata()
+    return ps + fresh_clash() + lift_order() + positions_and_codata() + clause_orders_and_nested_types()
 
 
 def effect_sequenced(tier='quick'):
     """programs inside the fragment where Fun's evaluation order is unambiguous (C01, C02): no effects in call /
     constructor / destructor / operator arguments and no effects under codata-typed bindings"""
-    return name_reuse(("v", "x0") if tier == 'quick' else ("v", "x0", "a0", "x")) + generated_names() + cut_shapes() + live_variables() + fresh_clash() + lift_order() + [p for p in positions_and_codata() if not p['name'].startswith('codata-eff')]
+    return name_reuse(("v", "x0") if tier == 'quick' else ("v", "x0", "a0", "x")) + generated_names() + cut_shapes() + live_variables() + fresh_clash() + lift_order() + [p for p in positions_and_codata() if not p['name'].startswith('codata-eff')] + clause_orders_and_nested_types()
